@@ -640,12 +640,23 @@ def maybe_zero_d(run, m, rng, p=0.25):
         run.stats["zero_d_coordinates"] += 1
 
 
-def work_C08(run, rng, budget):
+def c08_molecules(run, rng, budget):
+    # D/T atoms with a non-zero atom-block charge code first (rendered with codes and D/T symbols), then
+    # ordinary molecules with the same codes: state leaking from one read into the next shows up here
+    for _ in range(6 * budget):
+        m = G.gen_mol(rng, family="charged_dt")
+        sizes(run, m)
+        yield m, {"use_codes": True, "dt": True, "decoy_codes": False}
     for m in molecules(run, rng, 150 * budget, max_n=14):
+        yield m, None
+
+
+def work_C08(run, rng, budget):
+    for m, v2opts in c08_molecules(run, rng, budget):
         for a in m.atoms:  # V2000 fixed columns: coordinates with 4 decimals
             a["x"], a["y"], a["z"] = round(a["x"], 4), round(a["y"], 4), round(a["z"], 4)
         maybe_zero_d(run, m, rng)
-        t2, i2 = RD.render_v2000(m, rng)
+        t2, i2 = RD.render_v2000(m, rng, v2opts)
         t3, i3 = RD.render_v3000(m, rng, {"star": False})
         for key, v in i2["opts"].items():
             if v:
@@ -816,7 +827,7 @@ def work_C10(run, rng, budget):
     # every element symbol alone and every pair of neighbours in the periodic table, against an independent
     # periodic table (harness/gen.py): the atomic numbers and the numbering by increasing atomic number
     for i, sym in enumerate(G.ELEMENTS):
-        texts = [f"{sym}/"]
+        texts = [f"{sym}/"] + [f"{sym}{c}/" for c in (2, 9, 10, 12, 100)]
         if i + 1 < len(G.ELEMENTS):
             a, b = sym, G.ELEMENTS[i + 1]
             first, second = TG.hill_order([a, b])
@@ -830,9 +841,10 @@ def work_C10(run, rng, budget):
             if g is None:
                 run.fail("valid-sentence-rejected", f"{t!r}: {real}", {"string": t})
                 continue
-            want = sorted(__import__("re").findall(r"[A-Z][a-z]?", t.split("/")[0]), key=lambda x: G.Z[x])
+            _items = __import__("re").findall(r"([A-Z][a-z]?)([0-9]*)", t.split("/")[0])
+            want = sorted([x for x, c in _items for _ in range(int(c) if c else 1)], key=lambda x: G.Z[x])
             got = [(g.nodes[k].get("element_symbol"), g.nodes[k].get("atomic_number")) for k in sorted(g.nodes)]
-            if got != [(x, G.Z[x]) for x in want] or (len(want) == 2 and g.nodes[0].get("mass") != 7):
+            if got != [(x, G.Z[x]) for x in want] or ("mass=7" in t and g.nodes[0].get("mass") != 7):
                 run.fail("parsed-graph-differs-from-denotation", f"{t!r}: atoms {got}", {"string": t})
     # boundary families
     boundary = ["", "/", "//", "C", "C/", "C//", "/(1-2)", "H/", "HC/", "CH/", "HCl/", "ClH/", "C1/", "C2/", "C01/", "C10/", "C0/",
@@ -1093,6 +1105,12 @@ def work_C15(run, rng, budget):
 # =====================================================================================
 
 def c16_inputs(run, rng, budget):
+    # the ends of the documented seed range [0, 1)
+    for seed in (0.0, 0.5, 0.9999999999999999, 1e-300):
+        for _ in range(2):
+            m = G.gen_mol(rng, max_n=9)
+            sizes(run, m)
+            yield m, mol_graph(m), seed
     for m in molecules(run, rng, 100 * budget, max_n=14):
         g = mol_graph(m)
         yield m, (shuffled_listing(g, rng) if rng.random() < 0.5 else g), rng.random()
@@ -1140,6 +1158,10 @@ def work_C16(run, rng, budget):
             if not ok:
                 run.fail("permute-result-not-a-faithful-relabelling", "atom or bond attributes not carried / not isomorphic",
                          {"mol": mol_repr(m), "seed": seed})
+        # same seed, different state of the global generator beforehand
+        import random as _random
+        _random.seed(len(run.samples) * 7919 + m.n())
+        _random.random()
         r2, err = safe(permute_molecule, g, seed)
         if err is not None or P.show_graph(r2) != P.show_graph(r):
             run.fail("permute-not-deterministic-for-a-seed", "", {"mol": mol_repr(m), "seed": seed})
